@@ -98,7 +98,9 @@ func (fn *TrieTree) Set(k string, field unsafe.Pointer) bool {
 		c := *(*byte)(rt.IndexPtr(ks, byteTypeSize, i))
 		j := ascii2Int(c)
 		if int(j) >= len(fs) {
-			tmp := make([]TrieNode, j+1)
+			// NOTICE: native trie_get() only rejects an index GREATER than len, so it may read the
+			// node at [len]. Keep one zeroed node (nil Leaves) beyond len to make that read in-bounds.
+			tmp := make([]TrieNode, int(j)+1, int(j)+2)
 			copy(tmp, fs)
 			fs = tmp
 			fp.Index = tmp
